@@ -144,6 +144,33 @@ def text_case(case):
     return {"ok": True, "nt": True, "ops": len(outs), "out": "text"}
 
 
+def reassigned_case(case):
+    """{'op': descriptor, 'new': [coefficient descriptors]}: an operator is printed and serialised, then the public `coefficient` attribute of (one of) its
+    term(s) is reassigned, then it is printed and serialised again - every time the text / dictionary must denote the operator as it is NOW"""
+    from orquestra.quantum import operators as O
+    from orquestra.quantum.operators import PauliSum, PauliTerm
+    op = mk_operator(case["op"])
+    terms = op.terms if isinstance(op, PauliSum) else [op]
+    k = 0
+    for step, cd in enumerate([None] + case["new"]):
+        if cd is not None:
+            if not terms:
+                break
+            terms[step % len(terms)].coefficient = coef(cd)
+        ref = cmap(op)
+        txt, rep = str(op), repr(op)
+        for what, got in (("PauliSum(str(op))", PauliSum(txt)), ("PauliSum(repr(op))", PauliSum(rep)), ("convert_dict_to_op(convert_op_to_dict(op))", O.convert_dict_to_op(json.loads(json.dumps(O.convert_op_to_dict(op)))))):
+            k += 1
+            if not maps_close(cmap(got), ref):
+                return {"ok": False, "msg": "after %d reassignment(s) of a coefficient: %s denotes another matrix than the operator does now" % (step, what), "expected": str(ref)[:300], "observed": repr(got)[:300],
+                        "sig": "reassigned:" + what.split("(")[0], "ops": k}
+        if isinstance(op, PauliTerm):
+            k += 1
+            if not maps_close(cmap(PauliTerm(txt)), ref):
+                return {"ok": False, "msg": "after %d reassignment(s) of the coefficient: PauliTerm(str(term)) denotes another matrix" % step, "sig": "reassigned:PauliTerm", "ops": k}
+    return {"ok": True, "nt": True, "ops": k, "out": "reassigned"}
+
+
 def arr(d):
     """array descriptor: {'re': nested list, 'im': nested list|None, 'dtype': 'int'|None}"""
     a = np.array(d["re"], dtype=float if d.get("dtype") != "int" else int)
@@ -307,7 +334,7 @@ def near_case(case):
     return {"ok": True, "nt": True, "ops": k, "out": "near"}
 
 
-FUNCS = {"near_coefficients": near_case, "operators": operator_case, "text": text_case, "artefacts": artefact_case}
+FUNCS = {"reassigned": reassigned_case, "near_coefficients": near_case, "operators": operator_case, "text": text_case, "artefacts": artefact_case}
 
 
 def strings(maxf):
@@ -346,9 +373,11 @@ def artefacts():
     out += [{"kind": "parities", "values": A([[0, 0]], dtype="int"), "cor": c} for c in (None, [pc3])] + [{"kind": "parities", "values": A([[10**12, 1], [5, 0], [2, 2]], dtype="int"), "cor": None}]
     out += [{"kind": "value_estimate", "value": v, "precision": p} for v in (1.5, -0.25, 0.0, 1e-12, 3) for p in (None, 0.1, 0.0, ["np", 0.01], 2)]
     out += [{"kind": "list", "list": l} for l in ([], [1, 2.5, -3], ["a", "b"], [[1, 2], [3]], [0.1, [0.2, ["x"]]], [None, True])]
-    out += [{"kind": "layers", "layers": l} for l in ([], [[[0, 1], [2, 3]], [[1, 2]]], [[[0, 1, 2]]], [[], [[4, 5]]])]
-    out += [{"kind": "connectivity", "conn": c} for c in ([], [[0, 1]], [[0, 1], [1, 2], [0, 2, 3]])]
-    out += [{"kind": "ordering", "ordering": o} for o in ([], [0, 2, 1, 3], [5])]
+    out += [{"kind": "layers", "layers": l} for l in ([], [[[0, 1], [2, 3]], [[1, 2]]], [[[0, 1, 2]]], [[], [[4, 5]]],
+                                                      # groups / layers / pairs that are NOT in ascending order (the order is content), repeated groups, wide indices
+                                                      [[[4, 5], [0, 1], [2, 3]]], [[[2, 3], [0, 1]], [[1, 2]], [[0, 3], [2, 1]]], [[[1, 0]], [[0, 1]]], [[[0, 1]], [[0, 1]]], [[[10, 2], [11, 100]], []])]
+    out += [{"kind": "connectivity", "conn": c} for c in ([], [[0, 1]], [[0, 1], [1, 2], [0, 2, 3]], [[2, 3], [0, 1]], [[1, 0], [0, 1]], [[5, 4], [5, 4], [10, 2]])]
+    out += [{"kind": "ordering", "ordering": o} for o in ([], [0, 2, 1, 3], [5], [3, 2, 1, 0], [10, 2, 33])]
     out += [{"kind": "nmeas", "nmeas": n, "nterms": t, "frame_meas": f} for n in (12.5, 0.0, 1e6) for t in (1, 7) for f in (None, A([3.0, 4.5]), A([1.0]), A([2.0, 0.5], [0.0, 1.0]))]
     return out
 
@@ -371,6 +400,11 @@ def run(run):
     secs = [Section("operators", [{"op": o} for o in ops], operator_case, horizon=120, desc="dict/JSON (stdlib + rapidjson), save/load (path + open file), operator sets"),
             Section("text", [{"op": o} for o in ops], text_case, horizon=120, desc="str(op) parsed back by PauliTerm / PauliSum"),
             Section("artefacts", artefacts(), artefact_case, horizon=120, desc="every persisted artefact through its own save/load (path, open file, StringIO)")]
+    rterms = [[["py", 2], {"0": "X"}], [["c", 1, 2], {"7": "Y", "123": "Z"}], [["py", -1.5], {}], [["py", 1e-05], {"0": "Z", "7": "Z"}]]
+    rops = [{"t": t} for t in rterms] + [{"s": [rterms[0], rterms[1]]}, {"s": [rterms[2], rterms[3], rterms[0]]}]
+    news = [[["py", 0.5]], [["c", 0, -2], ["py", 3]], [["py", -1e-3], ["py", 0], ["c", 0.25, 0.5]]]
+    secs.append(Section("reassigned", [{"op": o, "new": nw} for o in rops for nw in news], reassigned_case, horizon=120,
+                        desc="print / serialise, reassign a term's coefficient, print / serialise again (1-3 reassignments): text and dictionary follow the operator"))
     secs.append(Section("near_coefficients", [{"base": b, "ops": o} for b in (0.5000001, 2.0, -1.25, 1e-3, 123456.5) for o in ({"0": "Z", "12": "X"}, {"7": "Y"}, {})], near_case,
                         desc="histories of serialisations of terms whose coefficients share a hash bucket / are np.allclose but differ by > 1e-8"))
     run.run_sections(secs)
